@@ -2,6 +2,7 @@ package main
 
 import (
 	"go/ast"
+	"go/printer"
 	"go/token"
 	"strings"
 )
@@ -159,5 +160,178 @@ func genHub(c *ctx) *leanFile {
 	// Hub.virtualSessions entry removed when a virtual session is closed by any path
 	src, okV := c.funcSource("virtualsession.go", "VirtualSession", "CloseWithFeedback")
 	l.boolean("vtableClearedOnClose", okV && strings.Contains(src, "virtualSessions"), okV, "VirtualSession.CloseWithFeedback not found")
+
+	// ... and only the entry that still points to the session being closed (a failed duplicate add closes
+	// a session that never owned the entry): the delete sits under an `if` comparing the stored sid
+	vs := c.file("virtualsession.go")
+	fdClose := findFunc(vs, "VirtualSession", "CloseWithFeedback")
+	guarded := false
+	if fdClose != nil {
+		for _, call := range callsOf(fdClose, "delete") {
+			if len(call.Args) == 2 && selectorEndsWith(call.Args[0], "virtualSessions") {
+				for _, ifs := range enclosingIfs(fdClose, call) {
+					if strings.Contains(nodeText(c, ifs.Cond), "Sid") && strings.Contains(nodeText(c, ifs.Cond), "==") {
+						guarded = true
+					}
+				}
+			}
+		}
+	}
+	l.boolean("vtableDeleteGuarded", guarded, fdClose != nil, "VirtualSession.CloseWithFeedback not found")
+
+	// atomicity the sequential model relies on (1): the session limit is compared and the session recorded
+	// inside one critical section of Backend.AddSession
+	bc := c.file("backend_configuration.go")
+	fdAdd := findFunc(bc, "Backend", "AddSession")
+	atomicLimit := false
+	if fdAdd != nil && fdAdd.Body != nil {
+		lockPos, unlockEarly := token.NoPos, false
+		var cmpPos, storePos token.Pos
+		ast.Inspect(fdAdd.Body, func(nd ast.Node) bool {
+			switch x := nd.(type) {
+			case *ast.DeferStmt:
+				return false // a deferred Unlock runs at return
+			case *ast.CallExpr:
+				if sel, ok := x.Fun.(*ast.SelectorExpr); ok && selectorEndsWith(sel.X, "sessionsLock") {
+					if sel.Sel.Name == "Lock" && lockPos == token.NoPos {
+						lockPos = x.Pos()
+					}
+					if sel.Sel.Name == "Unlock" && storePos == token.NoPos {
+						unlockEarly = true
+					}
+				}
+				// b.Len() takes and releases the lock by itself: a comparison through it is outside
+				if sel, ok := x.Fun.(*ast.SelectorExpr); ok && sel.Sel.Name == "Len" && cmpPos == token.NoPos && lockPos == token.NoPos {
+					cmpPos = x.Pos()
+				}
+			case *ast.BinaryExpr:
+				if (x.Op == token.GEQ || x.Op == token.GTR || x.Op == token.LSS || x.Op == token.LEQ) &&
+					(selectorEndsWith(x.X, "sessionLimit") || selectorEndsWith(x.Y, "sessionLimit")) && cmpPos == token.NoPos {
+					cmpPos = x.Pos()
+				}
+			case *ast.AssignStmt:
+				if len(x.Lhs) == 1 {
+					if ix, ok := x.Lhs[0].(*ast.IndexExpr); ok && selectorEndsWith(ix.X, "sessions") && storePos == token.NoPos {
+						storePos = x.Pos()
+					}
+				}
+			}
+			return true
+		})
+		atomicLimit = lockPos != token.NoPos && cmpPos > lockPos && storePos > cmpPos && !unlockEarly
+	}
+	l.boolean("limitCheckAtomic", atomicLimit, fdAdd != nil, "Backend.AddSession not found")
+
+	// atomicity (2): processJoinRoom looks the room up and creates it while holding Hub.ru
+	fdJoin := findFunc(hub, "Hub", "processJoinRoom")
+	atomicRoom := false
+	if fdJoin != nil && fdJoin.Body != nil {
+		var lockPos, lookupPos, createPos, firstUnlock token.Pos
+		ast.Inspect(fdJoin.Body, func(nd ast.Node) bool {
+			switch x := nd.(type) {
+			case *ast.CallExpr:
+				if sel, ok := x.Fun.(*ast.SelectorExpr); ok {
+					if selectorEndsWith(sel.X, "ru") && sel.Sel.Name == "Lock" && lockPos == token.NoPos {
+						lockPos = x.Pos()
+					}
+					if selectorEndsWith(sel.X, "ru") && sel.Sel.Name == "Unlock" && firstUnlock == token.NoPos {
+						firstUnlock = x.Pos()
+					}
+					if sel.Sel.Name == "createRoom" && createPos == token.NoPos {
+						createPos = x.Pos()
+					}
+					if (sel.Sel.Name == "GetRoomForBackend" || sel.Sel.Name == "getRoom") && lookupPos == token.NoPos {
+						lookupPos = x.Pos() // takes (and releases) the lock by itself
+						lockPos = token.NoPos
+					}
+				}
+			case *ast.IndexExpr:
+				if selectorEndsWith(x.X, "rooms") && lookupPos == token.NoPos {
+					lookupPos = x.Pos()
+				}
+			}
+			return true
+		})
+		atomicRoom = lockPos != token.NoPos && lookupPos > lockPos && createPos > lookupPos && firstUnlock > createPos
+	}
+	l.boolean("roomCreateAtomic", atomicRoom, fdJoin != nil, "Hub.processJoinRoom not found")
+
+	// a resumed session leaves the expiry list whatever connection it had before: the delete in the resume
+	// branch of processHello is not nested under a condition
+	fdHello := findFunc(hub, "Hub", "processHello")
+	resumeClears, sawDelete := false, false
+	if fdHello != nil {
+		for _, call := range callsOf(fdHello, "delete") {
+			if len(call.Args) == 2 && selectorEndsWith(call.Args[0], "expiredSessions") {
+				sawDelete = true
+				cond := false
+				for _, ifs := range enclosingIfs(fdHello, call) {
+					t := nodeText(c, ifs.Cond)
+					if ifs.Init != nil {
+						t += nodeText(c, ifs.Init)
+					}
+					if strings.Contains(t, "SetClient") || strings.Contains(t, "prev") {
+						cond = true
+					}
+				}
+				if !cond {
+					resumeClears = true
+				}
+			}
+		}
+	}
+	l.boolean("resumeClearsExpiry", resumeClears && sawDelete, fdHello != nil, "Hub.processHello not found")
 	return l
+}
+
+// callsOf lists the calls of the plain function `name` (e.g. the builtin delete) inside fd.
+func callsOf(fd *ast.FuncDecl, name string) []*ast.CallExpr {
+	var out []*ast.CallExpr
+	if fd == nil || fd.Body == nil {
+		return nil
+	}
+	ast.Inspect(fd.Body, func(nd ast.Node) bool {
+		if call, ok := nd.(*ast.CallExpr); ok && isIdent(call.Fun, name) {
+			out = append(out, call)
+		}
+		return true
+	})
+	return out
+}
+
+// selectorEndsWith: e is `x.y.name` or the identifier `name`.
+func selectorEndsWith(e ast.Expr, name string) bool {
+	switch x := e.(type) {
+	case *ast.SelectorExpr:
+		return x.Sel.Name == name
+	case *ast.Ident:
+		return x.Name == name
+	}
+	return false
+}
+
+// enclosingIfs lists the if statements of fd (innermost last) in whose body or else branch `target` lies
+// (not those that merely have it in their condition).
+func enclosingIfs(fd *ast.FuncDecl, target ast.Node) []*ast.IfStmt {
+	var out []*ast.IfStmt
+	ast.Inspect(fd.Body, func(nd ast.Node) bool {
+		ifs, ok := nd.(*ast.IfStmt)
+		if !ok {
+			return true
+		}
+		inside := func(n ast.Node) bool {
+			return n != nil && n.Pos() <= target.Pos() && target.End() <= n.End()
+		}
+		if inside(ifs.Body) || (ifs.Else != nil && inside(ifs.Else)) {
+			out = append(out, ifs)
+		}
+		return true
+	})
+	return out
+}
+
+func nodeText(c *ctx, n ast.Node) string {
+	var sb strings.Builder
+	printer.Fprint(&sb, c.fset, n) // nolint
+	return sb.String()
 }
